@@ -40,7 +40,7 @@ CHECKS = {
         'technique': 'Kani complete harnesses per operator / cast target of the constant evaluator (sub-evaluation stubbed) + Verus contract on the routing function evaluate_constexpr',
         'level_text': 'Verus (unbounded): evaluate_constexpr composes the value of a constant expression from its parts exactly as the statement says (literal = its value, named constant = recorded value, '
                       'cast node = conversion of the operand value after removing the type modifier, operator node = operator applied to the operands, anything else not constant) and leaves the module unchanged. '
-                      'Kani (complete, loop-free, full bit-width operands of every Constant kind, enum-wrapped or not): evaluate_operator returns the value the statement defines for 24 of its 26 operators and never aborts; '
+                      'Kani (complete, loop-free, full bit-width operands of every Constant kind, enum-wrapped or not): evaluate_operator returns the value the statement defines for 23 of its 26 operators and never aborts (multiplication: complete too, but with the kissat back end and 7-15 min, so thorough tier only); '
                       'for / and % the divisors 0, 1, -1 (all-ones) with any dividend; evaluate_cast to bool/int/uint/half/float/double and to enums with int / uint underlying type from every source kind incl. enum constants; '
                       'Constant::to_uint64 yields exactly the non-negative integer values. Sub-expression evaluation is cut by stubs, so the results hold at any expression depth.',
         'level_note': 'Bounded only (thorough tier, never counted): general quotient / remainder values (integer operands < 2^12) and untyped-literal multiplication (< 2^20) - equivalence of divider / 128-bit multiplier circuits '
